@@ -4,6 +4,7 @@ import ast
 from .. import q
 from ..prog import strip_cast, dotted
 from ..loader import AnalysisError
+from ..cfg import guards, guard_atoms
 
 
 class Site:
@@ -236,4 +237,285 @@ def helper_family(module_tree, F, params=()):
                 seen.add(id(H))
                 out.append((H, m))
                 work.append((H, m))
+    return out
+
+
+def rules_exact_kinds(run, rid, functions, floor=1):
+    """isinstance dispatch over the kinds of states: a test for one concrete kind must not be satisfied by another concrete kind.
+    The concrete kinds are the non-mixin subclasses of StateMixin; a test isinstance(x, K) in the given functions is exact when no other
+    concrete kind derives from K (deriving ShallowHistoryState from DeepHistoryState makes the deep-history branch take shallow ones too)."""
+    prog = run.prog
+    r = run.rule(rid, 'kind dispatch is exact: no concrete state class derives from another concrete state class that is tested with isinstance '
+                      'in ' + ', '.join(functions))
+    base = prog.cls('StateMixin')
+    kinds = [c for c in prog.subclasses(base) if not c.name.endswith('Mixin')]
+    run.floor(len(kinds), 6, r, 'concrete state classes')
+    n = 0
+    for fname in functions:
+        if not prog.has_fn(fname):
+            continue
+        fi = prog.fn(fname)
+        for c in q.calls(fi.node):
+            if not (isinstance(c.func, ast.Name) and c.func.id == 'isinstance' and len(c.args) == 2):
+                continue
+            tested = c.args[1].elts if isinstance(c.args[1], ast.Tuple) else [c.args[1]]
+            for t in tested:
+                nm = q.unparse(t).split('.')[-1]
+                k = next((x for x in kinds if x.name == nm), None)
+                if k is None:
+                    continue
+                n += 1
+                also = sorted(x.name for x in kinds if x is not k and k in prog.mro(x) and not any(q.unparse(t2).split('.')[-1] == x.name for t2 in tested))
+                run.check(not also, r, fi.short, 'isinstance(.., %s) selects that kind only' % nm,
+                          '%s now also derive(s) from %s: this test takes them too, and the branch meant for them may never run' % (also, nm), c)
+    run.floor(n, floor, r, 'isinstance tests on concrete state kinds')
+
+
+def copy_hook_gaps(prog, ci):
+    """Copy hooks (__deepcopy__, __copy__) defined by class ci: [(method, [fields set by the constructors of the class and its bases that the
+    hook never reads])]. A hook that works on self.__dict__ / vars(self) / copy.copy(self) as a whole transfers everything."""
+    fields = set()
+    for k in prog.mro(ci):
+        init = k.methods.get('__init__')
+        if init is None:
+            continue
+        me = q.param_names(init.node)[0]
+        for n in q.walk(init.node, False):
+            tg = []
+            if isinstance(n, ast.Assign):
+                tg = n.targets
+            elif isinstance(n, (ast.AnnAssign, ast.AugAssign)):
+                tg = [n.target]
+            for t in tg:
+                if isinstance(t, ast.Attribute) and isinstance(t.value, ast.Name) and t.value.id == me:
+                    fields.add(t.attr)
+    out = []
+    for hook in ('__deepcopy__', '__copy__'):
+        m = ci.methods.get(hook)
+        if m is None:
+            continue
+        me = q.param_names(m.node)[0]
+        txt = q.unparse(m.node)
+        if me + '.__dict__' in txt or 'vars(%s)' % me in txt or 'copy.copy(%s)' % me in txt or 'super().' + hook in txt or '__reduce_ex__' in txt:
+            out.append((m, []))
+            continue
+        read = {n.attr for n in q.walk(m.node) if isinstance(n, ast.Attribute) and isinstance(n.value, ast.Name) and n.value.id == me}
+        out.append((m, sorted(f for f in fields if f not in read and f.lstrip('_') not in read)))
+    return out
+
+
+# ---------------------------------------------------------------------------------------------------------------------------------------
+# How deep must a copy of a field go, and how deep does a hand-written copy hook go?  (C18.5 / C17.7 / C13.4)
+INF = 99
+_IMMUTABLE = {'str', 'int', 'float', 'bool', 'bytes', 'None', 'NoneType', 'CodeType', 'complex', 'Any?'}
+
+
+def _type_depth(t):
+    """Levels of mutable containers in a type written as in a `# type:` comment: str -> 0, List[str] -> 1, Dict[str, List[str]] -> 2; anything that
+    may be an object with fields of its own (a class of the package, Any, Callable, ..) -> INF (only deepcopy will do)."""
+    t = t.strip()
+    try:
+        e = ast.parse(t, mode='eval').body
+    except SyntaxError:
+        return INF
+
+    def depth(e):
+        if isinstance(e, ast.Constant) and e.value is None:
+            return 0
+        if isinstance(e, ast.Name):
+            return 0 if e.id in _IMMUTABLE else INF
+        if isinstance(e, ast.Attribute):
+            return 0 if e.attr in _IMMUTABLE else INF
+        if isinstance(e, ast.Subscript):
+            head = dotted(e.value) or ''
+            head = head.split('.')[-1]
+            args = e.slice.elts if isinstance(e.slice, ast.Tuple) else [e.slice]
+            if head in ('Optional', 'Union'):
+                return max(depth(a) for a in args)
+            if head in ('List', 'Set', 'Deque', 'list', 'set'):
+                return min(INF, 1 + depth(args[0]))
+            if head in ('Dict', 'MutableMapping', 'DefaultDict', 'OrderedDict', 'dict'):
+                return min(INF, 1 + max(depth(a) for a in args))
+            if head in ('Tuple', 'FrozenSet', 'tuple', 'frozenset'):
+                return max(depth(a) for a in args if not (isinstance(a, ast.Constant) and a.value is Ellipsis))
+            return INF
+        return INF
+    return depth(e)
+
+
+def field_depths(prog, ci):
+    """{field: needed copy depth} for the fields the constructors of ci (and of its bases) set with a `# type:` comment or from an annotated parameter."""
+    out = {}
+    for k in prog.mro(ci):
+        init = k.methods.get('__init__')
+        if init is None:
+            continue
+        try:
+            tree = ast.parse(k.module.src, type_comments=True)
+        except (SyntaxError, AttributeError):
+            continue
+        for cnode in [n for n in ast.walk(tree) if isinstance(n, ast.ClassDef) and n.name == k.name]:
+            for fn in [n for n in cnode.body if isinstance(n, ast.FunctionDef) and n.name == '__init__']:
+                ann = {a.arg: ast.unparse(a.annotation) for a in fn.args.args + fn.args.kwonlyargs if a.annotation is not None}
+                for st in ast.walk(fn):
+                    if isinstance(st, ast.Assign) and len(st.targets) == 1 and isinstance(st.targets[0], ast.Attribute) and isinstance(st.targets[0].value, ast.Name) \
+                            and st.targets[0].value.id == 'self':
+                        f = st.targets[0].attr
+                        if st.type_comment and st.type_comment != 'ignore':
+                            out[f] = _type_depth(st.type_comment)
+                        elif isinstance(st.value, ast.Name) and st.value.id in ann:
+                            out[f] = _type_depth(ann[st.value.id])
+                        elif isinstance(st.value, ast.Name) and st.value.id in {a.arg for a in fn.args.args + fn.args.kwonlyargs}:
+                            out.setdefault(f, INF)      # a parameter of undeclared type: an object of its own
+                        elif isinstance(st.value, ast.Constant):
+                            out.setdefault(f, 0)
+                    elif isinstance(st, ast.AnnAssign) and isinstance(st.target, ast.Attribute) and isinstance(st.target.value, ast.Name) and st.target.value.id == 'self':
+                        out[st.target.attr] = _type_depth(ast.unparse(st.annotation))
+    return out
+
+
+def copy_depth(e, me, elem_names=None):
+    """-> (field or None, depth) : how many container levels of self.<field> the expression e copies. deepcopy(..) -> INF, self.f -> 0, list(self.f) /
+    dict(self.f) / self.f.copy() / self.f[:] / [x for x in self.f] -> 1, {k: list(v) for k, v in self.f.items()} -> 2, a comprehension whose element is
+    deepcopy(x, memo) -> INF."""
+    e = strip_cast(e)
+    elem_names = elem_names or {}
+
+    def field_of(x):
+        x = strip_cast(x)
+        if isinstance(x, ast.Attribute) and isinstance(x.value, ast.Name) and x.value.id == me:
+            return x.attr
+        if isinstance(x, ast.Call) and isinstance(x.func, ast.Attribute) and x.func.attr in ('items', 'values', 'keys') and not x.args:
+            return field_of(x.func.value)
+        return None
+    if isinstance(e, ast.Name) and e.id in elem_names:
+        return elem_names[e.id], 0
+    if isinstance(e, ast.Call) and isinstance(e.func, ast.Attribute) and e.func.attr in ('items', 'values', 'keys') and not e.args and \
+            isinstance(e.func.value, ast.Name) and e.func.value.id in elem_names:
+        return elem_names[e.func.value.id], 0
+    if isinstance(e, ast.Call) and isinstance(e.func, ast.Name) and e.func.id in (elem_names.get('__deep_helpers__') or ()) and len(e.args) == 1:
+        f, _ = copy_depth(e.args[0], me, elem_names)
+        return f, INF
+    f = field_of(e)
+    if f is not None:
+        return f, 0
+    if isinstance(e, ast.Call):
+        d = (dotted(e.func) or '').split('.')[-1]
+        if d == 'deepcopy' and e.args:
+            f, _ = copy_depth(e.args[0], me, elem_names)
+            return f, INF
+        if d in ('list', 'dict', 'set', 'tuple', 'sorted', 'OrderedDict', 'copy') and len(e.args) == 1:
+            f, k = copy_depth(e.args[0], me, elem_names)
+            return f, min(INF, k + 1) if f is not None else 0
+        if isinstance(e.func, ast.Attribute) and e.func.attr == 'copy' and not e.args:
+            f, k = copy_depth(e.func.value, me, elem_names)
+            return f, min(INF, k + 1) if f is not None else 0
+    if isinstance(e, ast.Subscript) and isinstance(e.slice, ast.Slice) and e.slice.lower is None and e.slice.upper is None:
+        f, k = copy_depth(e.value, me, elem_names)
+        return f, min(INF, k + 1) if f is not None else 0
+    if isinstance(e, (ast.ListComp, ast.SetComp, ast.DictComp, ast.GeneratorExp)) and len(e.generators) == 1:
+        g = e.generators[0]
+        f, k0 = copy_depth(g.iter, me, elem_names)
+        if f is None:
+            return None, 0
+        names = dict(elem_names)
+        for x in ast.walk(g.target):
+            if isinstance(x, ast.Name):
+                names[x.id] = f
+        parts = [e.value] if isinstance(e, ast.DictComp) else [e.elt]
+        inner = min(copy_depth(p_, me, names)[1] if copy_depth(p_, me, names)[0] == f else INF for p_ in parts)
+        return f, min(INF, 1 + inner)
+    return None, 0
+
+
+def deepcopy_hook_gaps(prog, ci, m):
+    """Fields of ci whose copy made by the __deepcopy__ hook m is shallower than their type requires: [(field, needed, made)], or None when the hook
+    has a shape this analysis does not follow (the caller falls back to requiring deepcopy of the whole object)."""
+    need = field_depths(prog, ci)
+    M = m.node
+    me = q.param_names(M)[0]
+    dup = None
+    whole = 0           # depth at which every field is carried over wholesale: dup.__dict__.update(self.__dict__) -> 0 (shared), deepcopy(self.__dict__) -> INF
+    made = {}
+    wholesale = False
+    for st in q.walk(M, False):
+        if isinstance(st, ast.Assign) and isinstance(st.targets[0], ast.Name) and isinstance(strip_cast(st.value), ast.Call) and \
+                ('__new__' in q.unparse(strip_cast(st.value).func) or q.unparse(strip_cast(st.value).func) in (ci.name, 'type(%s)' % me, '%s.__class__' % me, 'cls')):
+            dup = st.targets[0].id
+    if dup is None:
+        return None
+    for st in q.walk(M, False):
+        if isinstance(st, ast.Expr) and isinstance(st.value, ast.Call) and q.unparse(st.value.func) == dup + '.__dict__.update' and st.value.args:
+            a0 = strip_cast(st.value.args[0])
+            if q.unparse(a0) == me + '.__dict__':
+                wholesale, whole = True, 0
+            elif isinstance(a0, ast.Call) and (dotted(a0.func) or '').split('.')[-1] == 'deepcopy' and a0.args and q.unparse(a0.args[0]) == me + '.__dict__':
+                wholesale, whole = True, INF
+        if isinstance(st, ast.Assign) and isinstance(st.targets[0], ast.Attribute) and isinstance(st.targets[0].value, ast.Name) and st.targets[0].value.id == dup:
+            f, k = copy_depth(st.value, me)
+            tgt = st.targets[0].attr
+            if f is None and not isinstance(strip_cast(st.value), (ast.Constant, ast.Dict, ast.List)):
+                return None
+            made[tgt] = k if f == tgt or f is None else 0
+            if f is None:
+                made[tgt] = INF      # a fresh constant / empty container
+    # for name, value in self.__dict__.items(): <value re-bound per case of name>; setattr(dup, name, value)
+    helpers = tuple(d.name for d in M.body if isinstance(d, ast.FunctionDef) and len(d.args.args) == 1 and any(
+        isinstance(x, ast.Return) and isinstance(strip_cast(x.value), ast.Call) and (dotted(strip_cast(x.value).func) or '').split('.')[-1] == 'deepcopy'
+        and strip_cast(x.value).args and q.unparse(strip_cast(x.value).args[0]) == d.args.args[0].arg for x in ast.walk(d)))
+    for lp in q.walk(M, False):
+        if not (isinstance(lp, ast.For) and isinstance(lp.target, ast.Tuple) and len(lp.target.elts) == 2 and all(isinstance(t, ast.Name) for t in lp.target.elts)
+                and q.unparse(lp.iter) in (me + '.__dict__.items()', 'vars(%s).items()' % me)):
+            continue
+        N, V = lp.target.elts[0].id, lp.target.elts[1].id
+        sets = [c for c in q.calls(lp) if isinstance(c.func, ast.Name) and c.func.id == 'setattr' and len(c.args) == 3 and q.unparse(c.args[0]) == dup and q.unparse(c.args[1]) == N]
+        if len(sets) != 1 or guards(sets[0], stop=lp):
+            continue
+        for f in need:
+            alts = []
+            for val, at in ([(sets[0].args[2], [])] if not isinstance(strip_cast(sets[0].args[2]), ast.Name) else
+                            [(v_, guard_atoms(st_, stop=lp)) for st_, v_ in q.assigned_value(M, strip_cast(sets[0].args[2]).id) if q.in_node(st_, lp)] or [(sets[0].args[2], [])]):
+                holds = True
+                for op, l, r_ in at:
+                    if l != N and r_ == N and op in ('==', '!='):
+                        l, r_ = r_, l
+                    if l != N:
+                        holds = None
+                        break
+                    try:
+                        cst = ast.literal_eval(r_)
+                    except Exception:
+                        holds = None
+                        break
+                    res = {'==': lambda: f == cst, '!=': lambda: f != cst, 'in': lambda: f in cst, 'not in': lambda: f not in cst}.get(op)
+                    if res is None:
+                        holds = None
+                        break
+                    if not res():
+                        holds = False
+                        break
+                if holds is None:
+                    return None
+                if holds:
+                    alts.append(val)
+            if not alts:
+                # no re-binding applies: the value itself is stored
+                made[f] = 0
+                continue
+            ds = []
+            for val in alts:
+                f2, k = copy_depth(val, me, {V: f, '__deep_helpers__': helpers})
+                ds.append(k if f2 == f else (INF if f2 is None and isinstance(strip_cast(val), (ast.Constant, ast.Dict, ast.List)) else 0))
+            made[f] = min(ds)
+        wholesale, whole = True, 0
+    out = []
+    for f, n_ in sorted(need.items()):
+        if f in made:
+            k = made[f]
+        elif wholesale:
+            k = whole
+        else:
+            return None      # the field is transferred in a way not followed here (constructor call, setattr loop)
+        if k < n_:
+            out.append((f, n_, k))
     return out
